@@ -361,6 +361,14 @@ func (r *Run) checkListing(fn *Func, over string, rule string) {
 		path := &paths[pi]
 		r.at(path)
 		r.loopsComplete(rule, fn, path)
+		// slices.AppendSeq(dst, maps.Values(m)) / slices.Collect(maps.Values(m)): every element of m, unconditionally
+		for _, ev := range path.Events {
+			if ev.Kind == EvCall && ev.Call != nil {
+				if kind, m := seqOverMap(ev.Fn.Info(), ev.Call); kind == "values" && r.P.Canon(ev.Fn, m) == over {
+					iter++
+				}
+			}
+		}
 		for i, ev := range path.Events {
 			if ev.Kind != EvGuard || ev.GKind != GRange || !ev.Val {
 				continue
@@ -419,6 +427,42 @@ func (r *Run) checkListing(fn *Func, over string, rule string) {
 		}
 	}
 	r.Check(rule, fn.Name+":iterates", iter >= 1, fn.Body.Pos(), "listing iterates %s", over)
+}
+
+// seqOverMap: the call collects all keys or all values of a map into a slice through the iterator helpers of
+// the standard library — slices.AppendSeq(dst, maps.Keys(m)), slices.Collect(maps.Values(m)),
+// slices.Sorted(maps.Keys(m)). Returns "keys" / "values" and the map expression.
+func seqOverMap(info *types.Info, call *ast.CallExpr) (string, ast.Expr) {
+	f, _ := calleeObj(info, call).(*types.Func)
+	if f == nil || f.Pkg() == nil || f.Pkg().Path() != "slices" {
+		return "", nil
+	}
+	var seq ast.Expr
+	switch f.Name() {
+	case "AppendSeq":
+		if len(call.Args) == 2 {
+			seq = call.Args[1]
+		}
+	case "Collect", "Sorted":
+		if len(call.Args) == 1 {
+			seq = call.Args[0]
+		}
+	}
+	inner, ok := ast.Unparen(seq).(*ast.CallExpr)
+	if seq == nil || !ok || len(inner.Args) != 1 {
+		return "", nil
+	}
+	g, _ := calleeObj(info, inner).(*types.Func)
+	if g == nil || g.Pkg() == nil || g.Pkg().Path() != "maps" {
+		return "", nil
+	}
+	switch g.Name() {
+	case "Keys":
+		return "keys", inner.Args[0]
+	case "Values":
+		return "values", inner.Args[0]
+	}
+	return "", nil
 }
 
 // writesField: function body assigns to / deletes from / increments the named field of the type.
